@@ -26,8 +26,10 @@ VARIABLES st,         \* st[n]: KardiaNode state of real node n
           l,          \* next trace line
           signed,     \* signed[n]: signature requests of node n
           seen,       \* seen[n]: valid votes delivered to node n
-          committed   \* committed[n]: sequence of <<h, bid>> applied by node n
-vars == <<st, l, signed, seen, committed>>
+          committed,  \* committed[n]: sequence of <<h, bid>> applied by node n
+          hbase,      \* hbase[n]: node n's state when it entered its current height (what follows #ENDHEIGHT)
+          hlog        \* hlog[n]: the inputs node n handled at its current height = its WAL after the last #ENDHEIGHT
+vars == <<st, l, signed, seen, committed, hbase, hlog>>
 
 K == INSTANCE KardiaNode WITH N <- Len(Hdr.power), Power <- Hdr.power, ProposerOf <- Hdr.prop,
                               InvalidBids <- {Hdr.invalid[i] : i \in 1..Len(Hdr.invalid)},
@@ -39,6 +41,8 @@ Init == /\ st = [n \in Nodes |-> K!InitNode(Hdr.me[n], 1)]
         /\ signed = [n \in Nodes |-> <<>>]
         /\ seen = [n \in Nodes |-> {}]
         /\ committed = [n \in Nodes |-> <<>>]
+        /\ hbase = [n \in Nodes |-> K!InitNode(Hdr.me[n], 1)]
+        /\ hlog = [n \in Nodes |-> <<>>]
 
 \* vote sets as a sequence ordered by round (JSON arrays come back as sequences)
 RECURSIVE RoundSeq(_, _)
@@ -69,8 +73,50 @@ NormSeq(s) == [k \in 1..Len(s) |-> Norm(s[k])]
 SeenOf(e) == IF e.k = "msg" /\ e.m.k = "vote" /\ e.m.ok
              THEN {[type |-> e.m.type, h |-> e.m.h, r |-> e.m.r, bid |-> e.m.bid, i |-> e.m.i]} ELSE {}
 
+(***************************************************************************)
+(* A restart (event k = "restart": the node process is stopped between two  *)
+(* handler calls and a new one is built on the surviving database and WAL). *)
+(* The specification of recovery IS the replay: the new process starts from *)
+(* the state updateToState builds for the stored height — with LastCommit   *)
+(* rebuilt from the stored seen-commit, which keeps only the precommits for *)
+(* the committed block and for nil — and feeds every input logged after the *)
+(* last #ENDHEIGHT through the same handlers.  What it signs on the way     *)
+(* must be what it had signed the first time (C05: no conflicting           *)
+(* signature), and the state it ends in is the specified one (so it agrees  *)
+(* with everybody about height, round, lock and whose turn it is: C04).     *)
+(***************************************************************************)
+Handle(s, e) == IF e.k = "timeout" THEN K!HandleTimeout(s, e.ti, [newBid |-> e.newBid])
+                ELSE K!HandleMsg(s, e.m, [newBid |-> e.newBid])
+RECURSIVE Replay(_, _, _, _)
+Replay(s, log, k, outs) ==
+  IF k > Len(log) THEN [s |-> s, out |-> outs]
+  ELSE LET res == Handle(s, log[k]) IN Replay(res.s, log, k + 1, outs \o MsgOuts(res.out))
+SeenCommitOf(s) ==
+  IF ~s.hasLast THEN s
+  ELSE LET cb == K!Maj(s.lastCommit)
+       IN [s EXCEPT !.lastCommit = [i \in DOMAIN s.lastCommit |->
+                                      IF s.lastCommit[i] \in {cb, K!NilB} THEN s.lastCommit[i] ELSE K!NoB]]
+Recovered(n) == Replay(SeenCommitOf(hbase[n]), hlog[n], 1, <<>>)
+InLog(sg, o) == \E k \in 1..Len(sg) : Norm(sg[k]) = Norm(o)
+
+RestartStep(e) ==
+  LET rec == Recovered(e.n)
+      sp  == Proj(rec.s)
+      dif == {<<f, sp[f], e.post[f]>> : f \in {g \in DOMAIN sp : sp[g] # e.post[g]}}
+      resigned == SignedOf(rec.out)
+      match == /\ sp = e.post                                       \* it is where its twin is
+               /\ NormSeq(rec.out) = NormSeq(e.out)                 \* it re-published exactly its old messages
+               /\ \A k \in 1..Len(resigned) : InLog(signed[e.n], resigned[k])  \* nothing new got signed
+  IN /\ IF match THEN TRUE ELSE (PrintT(<<"MISMATCH", "line", l, "node", e.n, "event", "restart",
+                               "state fields <<name, specified, real>>", dif,
+                               "spec_out", NormSeq(rec.out), "real_out", NormSeq(e.out)>>) /\ FALSE)
+     /\ st' = [st EXCEPT ![e.n] = rec.s]
+     /\ hbase' = [hbase EXCEPT ![e.n] = SeenCommitOf(@)]
+     /\ UNCHANGED <<signed, seen, committed, hlog>>
+
 Step ==
   /\ l <= Len(Trace)
+  /\ Trace[l].k # "restart"
   /\ LET e   == Trace[l]
          s   == st[e.n]
          env == [newBid |-> e.newBid]
@@ -88,8 +134,14 @@ Step ==
         /\ signed' = [signed EXCEPT ![e.n] = @ \o SignedOf(res.out)]
         /\ seen' = [seen EXCEPT ![e.n] = @ \cup SeenOf(e)]
         /\ committed' = [committed EXCEPT ![e.n] = @ \o AppSeq(Applies(res.out))]
+        /\ IF res.s.h # s.h
+           THEN hbase' = [hbase EXCEPT ![e.n] = res.s] /\ hlog' = [hlog EXCEPT ![e.n] = <<>>]
+           ELSE hbase' = hbase /\ hlog' = [hlog EXCEPT ![e.n] = Append(@, [k |-> e.k, newBid |-> e.newBid,
+                                                  m |-> IF e.k = "msg" THEN e.m ELSE [k |-> "none"],
+                                                  ti |-> IF e.k = "timeout" THEN e.ti ELSE [h |-> 0, r |-> 0, step |-> 0]])]
   /\ l' = l + 1
-Next == Step
+Restart == /\ l <= Len(Trace) /\ Trace[l].k = "restart" /\ RestartStep(Trace[l]) /\ l' = l + 1
+Next == Step \/ Restart
 Spec == Init /\ [][Next]_vars
 
 \* ---- C01 ----
